@@ -59,14 +59,22 @@ def sh(cmd, cwd=None, env=None, timeout=None, input=None):
         return 124, out + '\n[vp] TIMEOUT', time.time() - t0
 
 
-def load_units():
+def load_units(all_units=False):
+    """units listed in contracts/enabled.json (integrated, green on the unchanged tree); all_units=True: every directory
+    (used with --unit while a unit is being written)."""
     units = []
+    enabled = None
+    ep = os.path.join(CONTRACTS, 'enabled.json')
+    if not all_units and os.path.exists(ep):
+        enabled = set(json.load(open(ep)))
     for d in sorted(os.listdir(CONTRACTS)):
         p = os.path.join(CONTRACTS, d, 'unit.json')
         if os.path.exists(p):
             u = json.load(open(p))
             u['dir'] = os.path.join(CONTRACTS, d)
             u.setdefault('unit', d)
+            if enabled is not None and u['unit'] not in enabled:
+                continue
             units.append(u)
     return units
 
